@@ -284,6 +284,7 @@ class Check:
         self.known = load_known(pid)
         os.makedirs(os.path.join(BUILD, "replay", pid), exist_ok=True)
         self._n = 0
+        self.write_evidence = True   # --replay runs re-check one case and leave the evidence file alone
 
     def add_tlc(self, res):
         self.cov["states"] += res.distinct
@@ -323,9 +324,10 @@ class Check:
               "violations": len(self.violations)}
         if not cov["samples"]:
             cov["samples"] = ["(no sample recorded)"]
-        os.makedirs(EVID, exist_ok=True)
-        with open(os.path.join(EVID, self.pid + ".json"), "w") as f:
-            json.dump(ev, f, ensure_ascii=False, indent=1)
+        if self.write_evidence:
+            os.makedirs(EVID, exist_ok=True)
+            with open(os.path.join(EVID, self.pid + ".json"), "w") as f:
+                json.dump(ev, f, ensure_ascii=False, indent=1)
         log("%s %s: %d violation(s), %.1fs" % (self.pid, self.tier, len(self.violations), wall))
         return 1 if self.violations else 0
 
